@@ -10,7 +10,7 @@ for id in "$@"; do
   d=$out/data-$lc; rm -rf $d; mkdir -p $d
   [ -x cmd/$lc/build.sh ] && echo "$id: built through its build.sh (instrumented copies): the native part only" 
   go build -cover -coverpkg=$pk -o $out/bin/$lc ./cmd/$lc || exit 2
-  GOCOVERDIR=$PWD/$d VERIF_ROOT=$PWD VERIF_EVIDENCE_SUFFIX=.cov $out/bin/$lc quick > $out/$lc.log 2>&1
+  GOCOVERDIR=$PWD/$d VERIF_BUDGET_S=${COVER_BUDGET_S:-90} VERIF_ROOT=$PWD VERIF_EVIDENCE_SUFFIX=.cov $out/bin/$lc quick > $out/$lc.log 2>&1
   echo "$id rc=$?"
 done
 dirs=$(ls -d $out/data-* | paste -sd,)
